@@ -4,7 +4,7 @@ import json, sys
 CHECKS = {
  # id: (technique, level text, level note, design_ref)
  "C01": ("runtime reference-model monitor: generated canonical values through the real Encode/Decode, structural-equality oracle with independently recomputed length/checksum",
-         "Exploration: every one of the 170 codecs is driven with PRNG-determined canonical values (boundary-biased numbers, float bit patterns, hostile text, lists, every registered discriminator key) and the decoded message is compared bit-for-bit with the original. Holds on the executions observed; values not generated are not covered.",
+         "Exploration: every one of the 170 codecs is driven with PRNG-determined canonical values (boundary-biased numbers, float bit patterns, hostile text, lists, every registered discriminator key) and the decoded message is compared bit-for-bit with the original; texts that collide under CRC-32, FNV-1a-32 and FNV-1a-64 are round-tripped one after the other in one process. Holds on the executions observed; values not generated are not covered.",
          "Trusts Go reflection and the harness's own equality/clone code; the pinned schema only steers generation.", "§3 C01"),
  "C02": ("runtime reference-model monitor: independent interpreter of the pinned wire schema compared byte-for-byte (encode) and value-for-value (decode) with the real codecs on generated canonical, arbitrary and wire-level inputs",
          "Exploration: per message type ('program') the library and an independent schema interpreter are run side by side on PRNG-determined values and images; any byte, accept/reject, consumed-length or value disagreement is a violation. Catches two-sided layout changes that every round-trip test is blind to. Holds on the executions observed.",
@@ -13,13 +13,13 @@ CHECKS = {
          "Exploration: all big/little-endian primitive pairs instantiated for every prefix and element type are driven with generated values, and every numeric token (scalar, count, element, text length, computed length, computed checksum) of every message type is located by the pinned schema and checked for the module's byte order. Holds on the executions observed.",
          "Token positions come from the pinned schema; the per-module byte order is data of the oracle (no per-field override exists in the schema format).", "§3 C03"),
  "C04": ("runtime invariant monitor on frame encodes: length token vs. appended bytes vs. object field vs. reference body length, under 9 buffer histories and stale caller values",
-         "Exploration: every self-measuring frame type × every registered body type × 4 body kinds × 9 buffer histories × 4 stale caller values (thorough: repeated with fresh random content and >8 MiB frames). Holds on the executions observed.",
+         "Exploration: every self-measuring frame type × every registered body type × 5 body kinds × 9 buffer histories × 5 stale caller values (thorough: repeated with fresh random content and >8 MiB frames); the whole check re-runs in a child with the checksum registry emptied and in a child whose services read their input buffer to the end. Holds on the executions observed.",
          "Frame header positions come from the pinned schema.", "§3 C04"),
  "C05": ("runtime invariant monitor on frame encodes: trailer vs. object field vs. own byte-sum / bitwise CRC-32 over exactly the appended frame bytes, under 9 buffer histories",
-         "Exploration: every checksummed frame type × every registered body type × body kinds × buffer histories (prior content, partly consumed, reallocation) × stale values; the checksum span is pinned to the bytes this Encode appended. Holds on the executions observed.",
+         "Exploration: every checksummed frame type × every registered body type × body kinds × buffer histories (prior content, partly consumed, reallocation) × stale values; the checksum span is pinned to the bytes this Encode appended; frames whose CRC-32 is exactly 0, 1, 0xFFFFFFFF or the stale value are constructed by solving the CRC over GF(2); re-run with services that read their input buffer to the end. Holds on the executions observed.",
          "Own checksum implementations are self-tested on published check values.", "§3 C05"),
  "C06": ("runtime differential monitor: encode under 9 buffer histories vs. encode of a deep clone into a fresh buffer; prefix-preservation, re-encode and sequence-concatenation oracles",
-         "Exploration: all 170 types × generated values × 9 buffer histories, re-encodes of the same object, and mixed-type sequences with partial drains. Holds on the executions observed.",
+         "Exploration: all 170 types × generated values × 9 buffer histories, re-encodes of the same object, and mixed-type sequences with partial drains and interleaved encodes that must fail (over-long list, unregistered key, caller-supplied body that writes N bytes and refuses); re-run with services that read their input buffer to the end. Holds on the executions observed.",
          "Trusts bytes.Buffer and the harness deep-clone.", "§3 C06"),
  "C07": ("runtime monitor of buffer state after Decode: unread remainder compared byte-for-byte with the known tail; stream oracle over mixed frame sequences",
          "Exploration: all 170 types × generated canonical values × 4 kinds of trailing bytes, plus mixed-type streams (concatenated and through one shared send buffer) decoded by n successive calls. Holds on the executions observed.",
@@ -31,37 +31,37 @@ CHECKS = {
          "Exploration: every decoder × random, truncated, bit-flipped, site-directed (every length/count/body-length token set to maximal and wrap-around values in both byte orders, also in receive buffers with 4 MiB spare capacity) and unknown-discriminator inputs, plus a run-time re-registration scenario per table; a panic, a dead child or more reader steps than 256+8·len refutes. Holds on the inputs observed.",
          "Step proxy relies on every reader loop iteration allocating at least once (true for binary.Read under the pinned toolchain; otherwise the bound only gets weaker, never a false alarm).", "§3 C09"),
  "C10": ("runtime allocation meter (runtime.MemStats.TotalAlloc delta around each Decode in a single-goroutine child) on site-directed hostile inputs",
-         "Exploration: every length/count site of the schema is driven with maximal prefixes followed by 0/1/16 bytes or the valid remainder, plus random and legitimate large inputs; alloc <= 32 KiB + 64·len(input). All 60 sites must be reached or the run is inconclusive.",
+         "Exploration: every length/count site of the schema is driven with maximal prefixes followed by 0/1/16 bytes or the valid remainder, plus random and legitimate large inputs; a legitimately large image is decoded before the small hostile one for the same key; alloc <= 32 KiB + 40·len(input). All 66 sites must be reached or the run is inconclusive.",
          "The constants are calibrated against the measured worst legitimate ratio, which every run reports.", "§3 C10"),
  "C11": ("runtime monitor: every strict prefix of valid images is fed to the decoder; any nil error refutes",
-         "Exploration with an exhaustively enumerated inner dimension: per generated value every cut position 0..len-1 (token boundaries ±1 and 256 random cuts for images > 4 KiB). Holds on the values generated.",
+         "Exploration with an exhaustively enumerated inner dimension: per generated value every cut position 0..len-1 (token boundaries ±1 and 256 random cuts for images > 4 KiB); the complete image is decoded first, texts recur across cases, and the check re-runs with the checksum registry emptied. Holds on the values generated.",
          "Values come from the canonical generator; soundness of 'must reject' rests on C07 (exact consumption).", "§3 C11"),
  "C12": ("runtime monitor against pinned key→type tables: decode, encode-fill and factory probes over registered keys and large swept/sampled unregistered key spaces",
-         "Exploration with exhaustively enumerated sub-spaces: all 226 registered keys (type identity + round trip + encode-fill bytes), the whole u16 key space, all u32 keys < 2^20 (thorough 2^24) plus neighbourhoods, and for string tables all strings of length <= 3 over a small alphabet (thorough: all byte strings <= 3). The claim stays exploration because the u32 spaces are not swept completely.",
+         "Exploration with exhaustively enumerated sub-spaces: all 226 registered keys (type identity + round trip + encode-fill bytes), the whole u16 key space, all u32 keys < 2^20 (thorough 2^24) plus neighbourhoods, and for string tables all strings of length <= 3 over a small alphabet (thorough: all byte strings <= 3). Unregistered keys are presented alone, as the last bytes of the input, followed by a valid frame, and into used receivers. The claim stays exploration because the u32 spaces are not swept completely.",
          "The key→type tables are frozen data of the pinned commit.", "§3 C12"),
  "C13": ("runtime reference-model monitor for fixed-width text primitives: exhaustive small scope plus random, against a 10-line pad/cut/strip model",
-         "Exploration with an exhaustively enumerated small scope (N<=3 × 256 pad bytes × both sides × all texts over a 5-symbol alphabet) and random widths up to 65536; default wrappers and list variants per element.",
+         "Exploration with an exhaustively enumerated small scope (N<=3 × 256 pad bytes × both sides × all texts over a 5-symbol alphabet) and random widths up to 65536; default wrappers and list variants per element; every fixed-text field of every message type; hash-colliding texts read one after the other.",
          "Pad characters above 0xFF are outside 'pad byte'.", "§3 C13"),
  "C14": ("runtime reference-model monitor for the four checksum services: exhaustive short strings, random and multi-MiB inputs against own implementations; buffer non-consumption and repeatability observed",
-         "Exploration with an exhaustively enumerated sub-space (all strings <= 2 bytes quick, <= 3 bytes thorough) plus random strings to 64 KiB and the specific lengths at which 32-bit accumulators overflow.",
+         "Exploration with an exhaustively enumerated sub-space (all strings <= 2 bytes quick, <= 3 bytes thorough) plus random strings to 64 KiB, the specific lengths at which 32-bit accumulators overflow, sentinel bytes around the data, in-place patch sequences on one large buffer, and a re-run after the registry was emptied.",
          "Own CRC/sum implementations are self-tested on published check values.", "§3 C14"),
- "C15": ("runtime differential monitor: the same image decoded into a fresh receiver and into five kinds of dirty receivers, structural-equality oracle",
-         "Exploration: all 170 types × valid, wire-level and mutated images × 5 receiver histories (populated object, previously decoded other image, after a failed truncated decode, aliased sub-objects, near miss of the expected result). Holds on the executions observed.",
+ "C15": ("runtime differential monitor: the same image decoded into a fresh receiver and into seven kinds of dirty receivers, structural-equality oracle",
+         "Exploration: all 170 types × valid, wire-level and mutated images × 7 receiver histories (populated object, previously decoded other image, after a failed truncated decode, aliased sub-objects with numeric lists sharing one backing array, near miss of the expected result, decoded-then-failed, hand-built with mismatching discriminator and body). Holds on the executions observed.",
          "Receiver histories are generated, not enumerated.", "§3 C15"),
  "C16": ("runtime aliasing monitor: snapshot comparison after scribbling over / reusing the source bytes and after mutating the message; pooled-object random walk judged against the stateless reference interpreter; repeated under the race-detector build (checkptr)",
-         "Exploration: all 170 types × values with non-empty lists; decoded message vs deep snapshot after complementing the backing array, resetting/reusing the buffer, decoding another message; written bytes vs snapshot after in-place mutation of the message; a pool of long-lived objects and buffers reused for many random operations (no operation may change another object; every result must equal the stateless reference); small frames decoded from a 96 MiB source; zero checkptr/race aborts in the instrumented run.",
+         "Exploration: all 170 types × values with non-empty lists; decoded message vs deep snapshot after complementing the backing array, resetting/reusing the buffer, decoding another message; written bytes vs snapshot after in-place mutation of the message; a pool of long-lived objects and buffers reused for many random operations (no operation may change another object; every result must equal the stateless reference); small frames decoded from a 96 MiB source; decodes after 300 000 distinct texts; encoder-filled bodies of different messages must be independent; zero checkptr/race aborts in the instrumented run.",
          "checkptr flags only invalid unsafe conversions; valid zero-copy aliases are caught by the snapshot oracle instead.", "§3 C16"),
  "C17": ("runtime monitor with panic trap and child-process isolation over zero, constructor and arbitrary values of every type",
-         "Exploration: every type × zero value, constructor result, arbitrary field contents, every registered key with nil body, unregistered keys, each nested pointer part nil (thorough: 70 000-element lists), into seven kinds of destination buffer; checksummed frames also with their service unregistered. A panic or a dead child refutes.",
+         "Exploration: every type × zero value, constructor result, arbitrary field contents, every registered key with nil body, unregistered keys, each nested pointer part nil, every text length 0..2200 and list count 0..1100, frames whose body must refuse (thorough: 70 000-element lists), into nine kinds of destination buffer; checksummed frames also with their service unregistered. A panic or a dead child refutes.",
          "Values with nil list elements or typed-nil bodies are excluded as the property says.", "§3 C17"),
- "C18": ("runtime monitor at the prefix limits: every prefixed writer and every prefixed field of every message at max and max+1 (u32 text via an untouched 4 GiB mapping in the thorough tier)",
-         "Exploration at enumerated boundary points: all prefixed primitives × u8/u16 and defined types over them × {max-1,max,max+1,2max+1}; every prefixed field of every message type at max (round trip) and max+1 (must error), also inside frames; thorough adds 2^32-byte texts behind u32 prefixes. 2^32-element lists are out of reach in this sandbox and not claimed.",
+ "C18": ("runtime monitor at the prefix limits: every prefixed writer and every prefixed field of every message at max and max+1 (u32 text via an untouched 4 GiB mapping and 2^32 zero-sized list entries, in a child)",
+         "Exploration at enumerated boundary points: all prefixed primitives × u8/u16 and defined types over them × {max-1,max,max+1,2max+1}; every prefixed field of every message type at max (round trip) and max+1 (must error), also inside frames and inside list elements / nested parts at every nesting depth (the refusal must propagate to the outermost Encode); 2^32-byte texts and 2^32 zero-sized entries behind u32 prefixes.",
          "Field enumeration comes from the pinned schema.", "§3 C18"),
  "C19": ("linearizability checking (porcupine v1.3.0) of recorded concurrent histories of Registry/Get/Remove/Clear and of real frame encodes whose trailer reveals the registration they looked up, against a sequential map model; plus the Go race detector on the same workload",
-         "Exploration over schedules: thousands of short, genuinely overlapping histories of Registry/Get/Remove/Clear with unique-id services are recorded at the client boundary and checked; the same workload runs under -race; five fresh processes start with Clear/Remove/Registry/Get on the built-in names as their very first registry calls. Holds on the histories and accesses observed.",
+         "Exploration over schedules: thousands of short, genuinely overlapping histories of Registry/Get/Remove/Clear with unique-id services are recorded at the client boundary and checked; the same workload runs under -race; drain histories (70 names removed one by one while others register); ten fresh processes start with Clear/Remove/Registry/Get on the built-in names as their very first registry calls, five of them with frame encodes/decodes in between while the name holds nothing, a built-in, or a service of another result type (library work never changes the registry). Holds on the histories and accesses observed.",
          "Monitors use no shared state inside the measured region; checker timeouts are inconclusive.", "§3 C19"),
  "C20": ("Go race detector plus result-equality oracle over 64 goroutines encoding/decoding private objects of all types; fresh-process first-use trials",
-         "Exploration over schedules: parallel results are compared with sequentially precomputed ones for all 170 types while the checksum registry and 18 discriminator maps are read concurrently and the four checksum services are also called directly; -race build reports are counted from the log; first-use trials start every table's first access concurrently in fresh processes.",
+         "Exploration over schedules: parallel results are compared with sequentially precomputed ones for all 170 types while the checksum registry and 18 discriminator maps are read concurrently and the four checksum services are also called directly, with aligned failing encodes in between; the workload runs in a plain, a -race and a registry-emptied child; -race build reports are counted from the log; first-use trials start every table's first access concurrently in fresh processes.",
          "The race detector judges only accesses performed by the workload.", "§3 C20"),
 }
 NOT_YET = {}
